@@ -79,7 +79,7 @@ pub fn step(st: &mut St, toks: &[&str]) -> String {
             let Some(h) = num(slot).and_then(|s| st.hs.get_mut(&s)) else {
                 return "bad-op".into();
             };
-            let chunk = pat_bytes(sd, 1 << 20);
+            let chunk = pat_bytes(sd, crate::util::BIG_PERIOD);
             if *op == "bigupd" {
                 let mut big = Vec::with_capacity(n as usize);
                 while big.len() < n as usize {
